@@ -16,6 +16,8 @@ struct TreeGen {
   bool arrays = true, objects = true, emptyContainers = true;
   int deepFrom = 2;
   int maxDepth = 64;
+  const bool* abort = nullptr;      // when set and true, the enumeration unwinds without producing further trees
+  bool stopped() const { return abort && *abort; }
 
   typedef std::function<void(const MValue&)> Sink;
 
@@ -23,8 +25,9 @@ struct TreeGen {
 
   // all trees with exactly n nodes rooted at depth d
   void exact(int n, int d, const Sink& f) const {
+    if (stopped()) return;
     if (n == 1) {
-      for (auto& l : leaves(d)) f(l);
+      for (auto& l : leaves(d)) { if (stopped()) return; f(l); }
       if (emptyContainers && d < maxDepth) {
         if (arrays) f(MValue::array());
         if (objects) f(MValue::object());
@@ -51,6 +54,7 @@ struct TreeGen {
             return;
           }
           for (size_t k = 0; k < keys.size(); k++) {
+            if (stopped()) return;
             if (!dupKeys) {
               bool used = false;
               for (size_t j = 0; j < i; j++) used = used || ki[j] == k;
@@ -71,7 +75,9 @@ struct TreeGen {
       return;
     }
     for (int s = 1; s <= n; s++) {
+      if (stopped()) return;
       exact(s, d, [&](const MValue& t) {
+        if (stopped()) return;
         acc.push_back(t);
         forest(n - s, d, acc, g);
         acc.pop_back();
